@@ -264,12 +264,40 @@ type ParseResult struct {
 	PanicSite string
 	Ticks     int64
 	LexTicks  int64
+	full      []rune // the source with its guard characters behind it
+	orig      string
+}
+
+// SourceIntact - "" when the source handed to the parser and the characters stored behind it
+// are what they were (to be asked after parsing AND after rendering an error)
+func (pr *ParseResult) SourceIntact() string {
+	n := len(pr.full) - parseGuard
+	if string(pr.full[:n]) != pr.orig {
+		return "the source text itself was changed"
+	}
+	for i := n; i < len(pr.full); i++ {
+		if pr.full[i] != parseGuardRune {
+			return fmt.Sprintf("the character %d place(s) behind the end of the source was overwritten with U+%04X", i-n+1, pr.full[i])
+		}
+	}
+	return ""
 }
 
 // Parse - parse source under the parser step budget, never panics
+// parseGuard - characters kept behind the end of the source handed to the parser (in the spare
+// capacity of the same slice): the front end must leave them, and the source, as they are
+const parseGuard = 4
+const parseGuardRune = 0x2603
+
 func Parse(src string, ticks int64) *ParseResult {
-	runes := []rune(src)
-	res := &ParseResult{}
+	base := []rune(src)
+	full := make([]rune, len(base)+parseGuard)
+	copy(full, base)
+	for i := len(base); i < len(full); i++ {
+		full[i] = parseGuardRune
+	}
+	runes := full[:len(base)]
+	res := &ParseResult{full: full, orig: src}
 	zh.VerifTicks = 0
 	zh.VerifTickBudget = parseBudget(len(runes), ticks)
 	syntax.VerifTicks = 0
